@@ -17,6 +17,8 @@ class Ev:
     def quarters(self):
         if self.kind == "grace":
             return Fraction(0)
+        if self.kind == "mrest":
+            return Fraction(self.dur)  # a measure rest lasts one bar of the meter in force: `dur` holds that length in quarters
         q = Fraction(4, self.dur) * (2 - Fraction(1, 2 ** self.dots))
         if self.tuplet:
             q = q * Fraction(self.tuplet[1], self.tuplet[0])
@@ -58,7 +60,7 @@ def expected(doc):
                 pos = starts[i]
                 for e in layer:
                     q = e.quarters()
-                    if e.kind == "rest":
+                    if e.kind in ("rest", "mrest"):
                         rests.append((li + 1, pos, q))
                     else:
                         for k, (step, alter, octv) in enumerate(e.pitches):
@@ -166,7 +168,7 @@ def _sig(fifths):
 
 
 def _mei_event(ev, st, li, nid, open_tie, tie_els, with_ppq, ppq):
-    dur_attrs = ' dur="%d"' % ev.dur + (' dots="%d"' % ev.dots if ev.dots else "")
+    dur_attrs = "" if ev.kind == "mrest" else ' dur="%d"' % ev.dur + (' dots="%d"' % ev.dots if ev.dots else "")
     if with_ppq and ppq and ev.kind == "grace":
         v = Fraction(4, ev.dur) * ppq  # the notated value; a grace note takes no time whatever this attribute says
         if v.denominator == 1:
@@ -177,6 +179,8 @@ def _mei_event(ev, st, li, nid, open_tie, tie_els, with_ppq, ppq):
         dur_attrs += ' dur.ppq="%d"' % int(v)
     if ev.kind == "grace":
         dur_attrs += ' grace="unacc"'
+    if ev.kind == "mrest":
+        return ['<mRest xml:id="%s"/>' % nid("mr")]
     if ev.kind == "rest":
         return ['<rest xml:id="%s"%s/>' % (nid("r"), dur_attrs)]
 
@@ -337,6 +341,11 @@ def catalogue(tier="quick"):
     out.append(("compound_6_8", Doc([Staff(1, meter=(6, 8), measures=[[[N("C", 4, 4, 1), N("D", 4, 8), N("E", 4, 8), N("F", 4, 8)]], [[N("G", 4, 2, 1)]]])]), both))
     # MEI only: layers, cross-staff notes
     mei = ("mei",)
+    MR = lambda q: Ev("mrest", [], q)
+    out.append(("measure_rests_in_4_8_coarse_divisions", Doc([Staff(1, meter=(4, 8), measures=[[[N("C", 5), N("D", 5)]], [[MR(2)]], [[N("E", 5, 2)]], [[MR(2)]], [[N("F", 5), N("G", 5)]]]),
+                                                               Staff(2, clef=("F", 4), meter=(4, 8), measures=[[[MR(2)]], [[MR(2)]], [[N("C", 3, 2)]], [[N("D", 3), N("E", 3)]], [[MR(2)]]])]), mei))
+    out.append(("measure_rests_in_6_8_then_3_4", Doc([Staff(1, meter=(6, 8), measures=[[[N("C", 5, 2, 1)]], [[MR(3)]], [[MR(3)]], [[N("E", 5, 2, 1)]]], meter_changes={2: (3, 4)}),
+                                                       Staff(2, clef=("F", 4), meter=(6, 8), measures=[[[MR(3)]], [[MR(3)]], [[N("C", 3, 2, 1)]], [[MR(3)]]])]), mei))
     out.append(("two_layers", Doc([Staff(1, measures=[[[N("E", 5, 2), N("D", 5, 2)], [N("C", 4), N("D", 4), N("E", 4), N("F", 4)]],
                                                        [[N("C", 5, 1)], [N("G", 3, 2), N("C", 4, 2)]]])]), mei))
     out.append(("cross_staff_note", Doc([Staff(1, measures=[[[N("C", 4), N("G", 3, staff=2), N("E", 4, 2)]]]),
